@@ -403,3 +403,89 @@ def make_replay(chk, rep, scn=None):
             return buildjob.make_replay(chk, rep, scn)(c)
         return False, 'no replay for kind %r' % c.get('kind')
     return replay
+
+
+# ------------------------------------------------------------------------------------------------ translator validation
+def validate_kernel(chk, rep, n=24, nfiles=3):
+    """Seeded random CONCRETE states of Files/Deps/filesystem go through (a) the symbolic executor (one path each) and (b) the
+    compiled is_dirty on a materialised sqlite database; the verdicts and the rows afterwards must agree.  This validates the
+    summaries, the SQL interpretation and the filesystem model the kernel obligations rest on."""
+    import random
+    eng = chk.eng
+    rnd = random.Random(chk.seed * 7919 + 11)
+    cases = []
+    for _ in range(n):
+        R = rnd.randint(2, 9)
+        nm = names(nfiles)
+        ids = sorted(nm)
+        files = {1: {'rowid': 1, 'name': ALWAYS.decode(), 'is_generated': None, 'is_override': None, 'checked_runid': None,
+                     'changed_runid': rnd.choice([None, R - 1, R]), 'failed_runid': None, 'stamp': rnd.choice([None, S_MISSING.decode()]),
+                     'csum': None}}
+        fs = {}
+        for i in ids:
+            files[i] = {'rowid': i, 'name': nm[i].decode(), 'is_generated': rnd.choice([None, False, True, True]),
+                        'is_override': rnd.choice([None, False, False, True]),
+                        'checked_runid': rnd.choice([None, None, 0, R - 1, R, R + 1]),
+                        'changed_runid': rnd.choice([None, 1, R - 1, R - 1, R]),
+                        'failed_runid': rnd.choice([None, None, None, 0, R - 1, R]),
+                        'stamp': rnd.choice([None, S_MISSING.decode(), S1.decode(), S1.decode()]),
+                        'csum': rnd.choice([None, None, 'abc'])}
+            fs[nm[i].decode()] = rnd.choice([None, S1.decode(), S1.decode(), S2.decode(), S3.decode()])
+        deps = []
+        for t in ids:
+            for s_ in [1] + ids:
+                if s_ != t and rnd.random() < 0.35:
+                    deps.append([t, s_, 'm' if s_ == 1 else rnd.choice(['m', 'm', 'c']), rnd.choice([0, 0, 1])])
+        cases.append({'runid': R, 'files': files, 'fs': fs, 'deps': deps, 'target': ids[0]})
+    lines = [to_dbline(c, c['target']) for c in cases]
+    payload, raw, rc = rep.run('state', 'dbstate_batch', lines)
+    if len(payload) != len(cases):
+        chk.inconclusive.append('translator validation (kernel): native batch failed rc=%s %s' % (rc, raw[-300:]))
+        return
+    import re
+    for c, line, nat in zip(cases, lines, payload):
+        out = []
+
+        def run(c=c):
+            w = DBWorld(eng, c['runid'])
+            eng.world = w
+            for rid, r in c['files'].items():
+                w.add_file(rid, r['name'].encode(), **{k: (tuple(v.encode()) if isinstance(v, str) else v) for k, v in r.items()
+                                                       if k not in ('rowid', 'name')})
+            for nme, v in c['fs'].items():
+                w.fs[tuple(nme.encode())] = None if v is None else tuple(v.encode())
+            w.fs[tuple(ALWAYS)] = None
+            for t, s_, m, dm in c['deps']:
+                w.deps[(t, s_)] = {'mode': tuple(m.encode()), 'delete_me': dm}
+            r, fr, ptxr, psr = call_is_dirty(eng, w, c['runid'], c['target'])
+            v = real_verdict(eng, r)
+            eng.call('ProcessTransaction::commit', [ptxr.get()], None, None)
+            return v, w
+
+        def end(outcome, val, path):
+            out.append((outcome, val))
+        eng.explore(run, end)
+        if len(out) != 1 or out[0][0] != 'ok':
+            chk.inconclusive.append('translator validation (kernel): interpreter did not give one verdict on %s: %r' % (line, [o[0] for o in out]))
+            continue
+        v, w = out[0][1]
+        m = re.search(r'VERDICT=(\S+)', nat)
+        nv = m.group(1) if m else '?'
+        mine = fmt_verdict(v).replace(' ', '')
+        if isinstance(v, tuple):
+            mine = 'Err:' + str(v[1])
+        if nv != mine:
+            chk.inconclusive.append('translator validation (kernel): %s: interpreter says %s, compiled code says %s' % (line, mine, nv))
+            continue
+        # rows afterwards: checked_runid of every file (the only column the walk writes)
+        rows = dict(x.split(':', 1) for x in (re.search(r'ROWS=(\S*)', nat).group(1).split(';')) if ':' in x)
+        okk = True
+        for rid, r in w.files.items():
+            ck = r['checked_runid']
+            want = rows.get(str(rid), '').split(',')
+            if len(want) >= 3 and want[2] != ('N' if ck is None else str(int(ck) if not is_sym(ck) else ck)):
+                okk = False
+        if not okk:
+            chk.inconclusive.append('translator validation (kernel): %s: rows after the walk differ (%s)' % (line, nat[-200:]))
+            continue
+        chk.validated += 1
